@@ -103,13 +103,18 @@ def shared_guard(bodies):
         if not b.d.get("hir"):
             continue
         names = set()
+
+        def over_all_usages(e):
+            # the question is put for every usage of the definitions, not for a chosen one
+            return any(True for _ in lib.hir_calls(e, "Definition::usages")) or any(True for _ in lib.hir_calls(e, "Definition::definition_and_usages"))
         for n in lib.hwalk(b.hir["body"]):
-            if n.get("k") == "let" and "init" in n and any(True for _ in lib.hir_calls(n["init"], "Analysis::is_used_by_symbol_defined_elsewhere")):
+            if n.get("k") == "let" and "init" in n and any(True for _ in lib.hir_calls(n["init"], "Analysis::is_used_by_symbol_defined_elsewhere")) and \
+                    over_all_usages(n["init"]):
                 names |= {q["name"] for q in lib.hwalk(n["pat"]) if q.get("k") == "bind"}
         for n in lib.hwalk(b.hir["body"]):
             if n.get("k") == "if":
                 c = n["cond"]
-                asks = any(True for _ in lib.hir_calls(c, "Analysis::is_used_by_symbol_defined_elsewhere")) or \
+                asks = (any(True for _ in lib.hir_calls(c, "Analysis::is_used_by_symbol_defined_elsewhere")) and over_all_usages(c)) or \
                     any(x.get("k") == "path" and (x.get("res") or {}).get("dk") == "Local" and x["res"].get("name") in names for x in lib.hwalk(c))
                 if asks and any(x.get("k") == "ret" for x in lib.hwalk(n["then"])):
                     return True
@@ -144,8 +149,11 @@ def r156(ctx, fx):
          "the rename handler edits usages without comparing their text with the symbol's name: where an import gave the symbol another name (`.import foo as bar`), "
          "`lda bar` is rewritten to the new name of `foo`, which does not exist there"),
         ("shared-occurrences", shared_guard(bodies),
-         "the rename handler does not check whether an occurrence also stands for a symbol defined elsewhere (a name in a macro body is looked up per invocation): "
+         "the rename handler does not check, for *every* usage of the symbol, whether the occurrence also stands for a symbol defined elsewhere (a name in a macro body is looked up per invocation): "
          "renaming `a.target` rewrites the `jmp target` of the macro and the invocation in `b` no longer assembles"),
+        ("all-copies", calls_any("Analysis::symbols_written_at"),
+         "the rename handler renames only the copies of the symbol that have an occurrence at the position of the request: started at a usage of a symbol from a file "
+         "that is imported twice, the usages that reach it through the other import keep the old name and the project no longer assembles"),
         ("import-alias", calls_any("Span::subspan"),
          "the rename handler replaces the whole `name as alias` of an import: renaming the imported symbol deletes the alias"),
     ]
